@@ -231,7 +231,18 @@ pub fn record_c06(out: &str, seed: u64, n_ops: usize, mode: &str) {
                     if !forced && rng.chance(1, 2) {
                         burst = 3;
                     }
-                    if rng.chance(1, 3) || (forced && blob.is_none()) {
+                    if !forced && rng.chance(1, 6) {
+                        // a load that is refused (empty input, header only, a truncated image) leaves rules AND tags alone
+                        let (ids, img) = &others[rng.below(others.len())];
+                        let bad: &[u8] = match rng.below(3) { 0 => &[], 1 => &img[..4.min(img.len())], _ => &img[..img.len() / 2] };
+                        if e.deserialize(bad).is_err() {
+                            log(&mut w, &mut recent, json!({"op": "load-refused", "bytes": bad.len()}), format!("load refused ({} bytes)", bad.len()));
+                        } else {
+                            // accepted after all: bring model and engine back in step with a complete load
+                            let ok = e.deserialize(img).is_ok();
+                            log(&mut w, &mut recent, json!({"op": if ok { "load" } else { "load-failed" }, "ids": ids.iter().map(|i| i + 1).collect::<Vec<_>>()}), "load(other image)".into());
+                        }
+                    } else if rng.chance(1, 3) || (forced && blob.is_none()) {
                         let (ids, img) = &others[rng.below(others.len())];
                         let ok = e.deserialize(img).is_ok();
                         log(&mut w, &mut recent, json!({"op": if ok { "load" } else { "load-failed" }, "ids": ids.iter().map(|i| i + 1).collect::<Vec<_>>()}), "load(other image)".into());
